@@ -113,44 +113,49 @@ theorem usage_waits_using (sm : Sem St Req Resp) (plan : Plan) (s : St) (n : Str
 /-- the configurations reachable from store `st0` with no reconcile in flight -/
 def reach (st0 : St) (acts : List Act) : Sys := Sys.run ⟨st0, []⟩ acts
 
+/-- the schedule contains no creation step: it is made of reconciles of the six modelled
+deletion branches (each call with any fault outcome), user deletions, garbage collection
+steps, finalizer removals and crashes -/
+def NoCreate (acts : List Act) : Prop := ∀ a ∈ acts, a.isCreate = false
+
 /-- General form: in every reachable configuration the next request of every in-flight
 reconcile satisfies `safeReq` in the current store. -/
-theorem trace_order (st0 : St) (acts : List Act) (t : Thread) (r : Req) (k : Resp → P)
+theorem trace_order (st0 : St) (acts : List Act) (hn : NoCreate acts) (t : Thread) (r : Req) (k : Resp → P)
     (ht : t ∈ (reach st0 acts).ths) (hp : t.prog = .call r k) :
     safeReq (reach st0 acts).st t.ctl t.name r = true :=
-  safe_reachable st0 acts t r k ht hp
+  safe_reachable st0 acts hn t r k ht hp
 
 /-- When a claim reconcile is about to remove the claim finalizer, the XR the stored claim
 references is gone, or — policy not Foreground — is already being deleted. -/
-theorem trace_claim_fin_after_xr (st0 : St) (acts : List Act) (t : Thread) (kk : Key) (rv : Nat) (k : Resp → P)
+theorem trace_claim_fin_after_xr (st0 : St) (acts : List Act) (hn : NoCreate acts) (t : Thread) (kk : Key) (rv : Nat) (k : Resp → P)
     (ht : t ∈ (reach st0 acts).ths) (hc : t.ctl = .claim)
     (hp : t.prog = .call (.removeFin kk rv c08ClaimFinalizer) k)
     (cm : Obj) (hcm : find (reach st0 acts).st kk = some cm) (href : cm.ref ≠ "")
     (x : Obj) (hx : find (reach st0 acts).st ⟨.xr, cm.ref⟩ = some x) :
     x.del = true ∧ cm.flag = false := by
-  have := trace_order st0 acts t _ k ht hp
+  have := trace_order st0 acts hn t _ k ht hp
   rw [hc] at this
   simp only [safeReq, hcm, claimXRGone, hx] at this
   simpa [href] using this
 
 /-- When the definition reconcile of XRD `n` is about to delete a CRD, no XR exists and
 the composite controller of `n` is not running. -/
-theorem trace_crd_after_instances_and_stop (st0 : St) (acts : List Act) (t : Thread) (crd : String) (fg : Bool) (k : Resp → P)
+theorem trace_crd_after_instances_and_stop (st0 : St) (acts : List Act) (hn : NoCreate acts) (t : Thread) (crd : String) (fg : Bool) (k : Resp → P)
     (ht : t ∈ (reach st0 acts).ths) (hc : t.ctl = .defined)
     (hp : t.prog = .call (.delete ⟨.crd, crd⟩ fg) k) :
     (∀ o ∈ (reach st0 acts).st.objs, o.key.kind ≠ .xr) ∧ compositeCtrl t.name ∉ (reach st0 acts).st.running := by
-  have := trace_order st0 acts t _ k ht hp
+  have := trace_order st0 acts hn t _ k ht hp
   rw [hc] at this
   simp only [safeReq, noneOf, bne_self_eq_false, Bool.false_or, Bool.and_eq_true, List.all_eq_true,
     Bool.not_eq_true'] at this
   refine ⟨fun o ho => by simpa using this.1 o ho, ?_⟩
   simpa using this.2
 
-theorem trace_crd_after_instances_and_stop_offered (st0 : St) (acts : List Act) (t : Thread) (crd : String) (fg : Bool) (k : Resp → P)
+theorem trace_crd_after_instances_and_stop_offered (st0 : St) (acts : List Act) (hn : NoCreate acts) (t : Thread) (crd : String) (fg : Bool) (k : Resp → P)
     (ht : t ∈ (reach st0 acts).ths) (hc : t.ctl = .offered)
     (hp : t.prog = .call (.delete ⟨.crd, crd⟩ fg) k) :
     (∀ o ∈ (reach st0 acts).st.objs, o.key.kind ≠ .claim) ∧ claimCtrl t.name ∉ (reach st0 acts).st.running := by
-  have := trace_order st0 acts t _ k ht hp
+  have := trace_order st0 acts hn t _ k ht hp
   rw [hc] at this
   simp only [safeReq, noneOf, bne_self_eq_false, Bool.false_or, Bool.and_eq_true, List.all_eq_true,
     Bool.not_eq_true'] at this
@@ -160,11 +165,11 @@ theorem trace_crd_after_instances_and_stop_offered (st0 : St) (acts : List Act) 
 /-- When the definition reconcile is about to stop the composite controller while the
 XRD still exists, either the CRD is gone or not controlled by the XRD ("never ours"), or
 no XR exists. -/
-theorem trace_stop_after_instances (st0 : St) (acts : List Act) (t : Thread) (ctl : String) (k : Resp → P)
+theorem trace_stop_after_instances (st0 : St) (acts : List Act) (hn : NoCreate acts) (t : Thread) (ctl : String) (k : Resp → P)
     (ht : t ∈ (reach st0 acts).ths) (hc : t.ctl = .defined) (hp : t.prog = .call (.stop ctl) k)
     (d : Obj) (hd : find (reach st0 acts).st ⟨.xrd, t.name⟩ = some d) :
     crdNotOurs (reach st0 acts).st d.ref d.uid = true ∨ ∀ o ∈ (reach st0 acts).st.objs, o.key.kind ≠ .xr := by
-  have := trace_order st0 acts t _ k ht hp
+  have := trace_order st0 acts hn t _ k ht hp
   rw [hc] at this
   simp only [safeReq, hd, Bool.or_eq_true] at this
   rcases this with h | h
@@ -173,11 +178,11 @@ theorem trace_stop_after_instances (st0 : St) (acts : List Act) (t : Thread) (ct
     simp only [noneOf, List.all_eq_true] at h
     exact fun o ho => by simpa using h o ho
 
-theorem trace_stop_after_instances_offered (st0 : St) (acts : List Act) (t : Thread) (ctl : String) (k : Resp → P)
+theorem trace_stop_after_instances_offered (st0 : St) (acts : List Act) (hn : NoCreate acts) (t : Thread) (ctl : String) (k : Resp → P)
     (ht : t ∈ (reach st0 acts).ths) (hc : t.ctl = .offered) (hp : t.prog = .call (.stop ctl) k)
     (d : Obj) (hd : find (reach st0 acts).st ⟨.xrd, t.name⟩ = some d) :
     crdNotOurs (reach st0 acts).st d.of d.uid = true ∨ ∀ o ∈ (reach st0 acts).st.objs, o.key.kind ≠ .claim := by
-  have := trace_order st0 acts t _ k ht hp
+  have := trace_order st0 acts hn t _ k ht hp
   rw [hc] at this
   simp only [safeReq, hd, Bool.or_eq_true] at this
   rcases this with h | h
@@ -188,52 +193,77 @@ theorem trace_stop_after_instances_offered (st0 : St) (acts : List Act) (t : Thr
 
 /-- When an XRD finalizer is about to be removed, the corresponding CRD is gone or not
 controlled by the stored XRD. -/
-theorem trace_xrd_fin_after_crd (st0 : St) (acts : List Act) (t : Thread) (kk : Key) (rv : Nat) (k : Resp → P)
+theorem trace_xrd_fin_after_crd (st0 : St) (acts : List Act) (hn : NoCreate acts) (t : Thread) (kk : Key) (rv : Nat) (k : Resp → P)
     (ht : t ∈ (reach st0 acts).ths) (hc : t.ctl = .defined)
     (hp : t.prog = .call (.removeFin kk rv c08DefinedFinalizer) k)
     (d : Obj) (hd : find (reach st0 acts).st kk = some d) :
     crdNotOurs (reach st0 acts).st d.ref d.uid = true := by
-  have := trace_order st0 acts t _ k ht hp
+  have := trace_order st0 acts hn t _ k ht hp
   rw [hc] at this
   simpa [safeReq, hd] using this
 
-theorem trace_xrd_fin_after_crd_offered (st0 : St) (acts : List Act) (t : Thread) (kk : Key) (rv : Nat) (k : Resp → P)
+theorem trace_xrd_fin_after_crd_offered (st0 : St) (acts : List Act) (hn : NoCreate acts) (t : Thread) (kk : Key) (rv : Nat) (k : Resp → P)
     (ht : t ∈ (reach st0 acts).ths) (hc : t.ctl = .offered)
     (hp : t.prog = .call (.removeFin kk rv c08OfferedFinalizer) k)
     (d : Obj) (hd : find (reach st0 acts).st kk = some d) :
     crdNotOurs (reach st0 acts).st d.of d.uid = true := by
-  have := trace_order st0 acts t _ k ht hp
+  have := trace_order st0 acts hn t _ k ht hp
   rw [hc] at this
   simpa [safeReq, hd] using this
 
 /-- When a revision's finalizer is about to be removed, the Lock (if any) does not list it. -/
-theorem trace_rev_lock_before_fin (st0 : St) (acts : List Act) (t : Thread) (kk : Key) (rv : Nat) (k : Resp → P)
+theorem trace_rev_lock_before_fin (st0 : St) (acts : List Act) (hn : NoCreate acts) (t : Thread) (kk : Key) (rv : Nat) (k : Resp → P)
     (ht : t ∈ (reach st0 acts).ths) (hc : t.ctl = .rev)
     (hp : t.prog = .call (.removeFin kk rv c08RevisionFinalizer) k)
     (l : Obj) (hl : find (reach st0 acts).st lockKey = some l) : kk.name ∉ l.pkgs := by
-  have := trace_order st0 acts t _ k ht hp
+  have := trace_order st0 acts hn t _ k ht hp
   rw [hc] at this
   simpa [safeReq, hl] using this
 
 /-- When the finalizer of a composed Usage that names a using resource is about to be
 removed, that using resource is gone. -/
-theorem trace_usage_waits_using (st0 : St) (acts : List Act) (t : Thread) (kk : Key) (rv : Nat) (k : Resp → P)
+theorem trace_usage_waits_using (st0 : St) (acts : List Act) (hn : NoCreate acts) (t : Thread) (kk : Key) (rv : Nat) (k : Resp → P)
     (ht : t ∈ (reach st0 acts).ths) (hc : t.ctl = .usage)
     (hp : t.prog = .call (.removeFin kk rv c08UsageFinalizer) k)
     (u : Obj) (hu : find (reach st0 acts).st kk = some u) (hf : u.flag = true) (hr : u.ref ≠ "") :
     find (reach st0 acts).st ⟨.res, u.ref⟩ = none := by
-  have := trace_order st0 acts t _ k ht hp
+  have := trace_order st0 acts hn t _ k ht hp
   rw [hc] at this
   simp only [safeReq, hu, present, hf] at this
   cases hfd : find (reach st0 acts).st ⟨.res, u.ref⟩ with
   | none => rfl
   | some o => simp [hfd, hr] at this
 
-/-! ## non-vacuity: the guarded writes do happen -/
+/-! ## the restriction to creation-free schedules is necessary -/
 
 private def mk (k : Key) (uid : Nat) (fins : List String) (del : Bool) : Obj :=
   { key := k, uid := uid, rv := uid, fins := fins, del := del, owners := [], conds := [], paused := false,
     ref := "", of := "", flag := false, inuse := false, pkgs := [] }
+
+private def raceWorld : St :=
+  { objs := [{ mk ⟨.xrd, "xs.example.org"⟩ 1 [c08DefinedFinalizer, c08OfferedFinalizer] true with ref := "xs.example.org", of := "cs.example.org" },
+             { mk ⟨.crd, "xs.example.org"⟩ 2 [] false with owners := [⟨1, true, true⟩] },
+             { mk ⟨.claim, "ns/c"⟩ 3 [c08ClaimFinalizer] false with ref := "x" }],
+    nextRv := 4, running := [compositeCtrl "xs.example.org"] }
+
+/-- The definition reconcile reads "no XR left"; a reconcile of the still-live claim then
+re-creates the claim's XR (modelled as a creation step; reproduced on the real claim
+reconciler, see corpus/C08/recreate-race.jsonl); the definition reconcile goes on
+to stop the composite controller although an instance exists and the CRD is ours. The
+same happens for Delete(crd) one call later. This is why the trace theorems assume
+`NoCreate` — and a genuine time-of-check/time-of-use window of the unchanged code. -/
+theorem trace_stop_after_instances_fails_with_recreation_witness :
+    (reach raceWorld [.spawn .defined "xs.example.org", .step 0 .ok, .step 0 .ok, .step 0 .ok, .step 0 .ok, .step 0 .ok,
+      .create (mk ⟨.xr, "x"⟩ 9 [] false)]).unsafeAt 0 = true ∧
+    (reach raceWorld [.spawn .defined "xs.example.org", .step 0 .ok, .step 0 .ok, .step 0 .ok, .step 0 .ok, .step 0 .ok,
+      .create (mk ⟨.xr, "x"⟩ 9 [] false), .step 0 .ok]).unsafeAt 0 = true := by decide
+
+/-- without the creation step the same schedule is safe at both points -/
+example :
+    (reach raceWorld [.spawn .defined "xs.example.org", .step 0 .ok, .step 0 .ok, .step 0 .ok, .step 0 .ok, .step 0 .ok]).unsafeAt 0 = false ∧
+    (reach raceWorld [.spawn .defined "xs.example.org", .step 0 .ok, .step 0 .ok, .step 0 .ok, .step 0 .ok, .step 0 .ok, .step 0 .ok]).unsafeAt 0 = false := by decide
+
+/-! ## non-vacuity: the guarded writes do happen -/
 
 private def claimWorld (fg : Bool) : St :=
   { objs := [{ mk ⟨.claim, "ns/c"⟩ 1 [c08ClaimFinalizer] true with ref := "x", flag := fg },
